@@ -683,6 +683,9 @@ def main(argv=None) -> int:
     model_and_replay(rep, mods, t, rng, stats)
     real_pool(rep, mods, t, rng, stats)
     hash_seeds(rep, mods, t, rng, stats)
+    # (e) Editor.tla: one SET of edits handed to the direct editor in different orders and collection types gives one result
+    import c03_editor
+    stats["editor_order_cases"] = c03_editor.run(rep, t, stats, mode="order", rng=rng)
     rep.coverage["evaluations"] = stats.get("replays", 0) + stats.get("real_pool_runs", 0) + stats.get("seed_evaluations", 0)
     rep.coverage["distinct_nontrivial"] = stats.get("replays", 0) + stats.get("real_pool_runs", 0)
     rep.coverage["traces_validated_against_impl"] = stats.get("replays", 0)
@@ -690,7 +693,8 @@ def main(argv=None) -> int:
     rep.coverage["rule"] = ("(b) one witness schedule per terminal state of Pool.tla (distinct assignment of tasks to workers, completion order and "
                             "observations) replayed into the real format_files through a controlled pool, for 4 trees (2 without, 2 with same-pass "
                             "dependencies); (c) the real pool with n_cores in 2..16 on shuffled / duplicated lists against n_cores=1; (d) format_code and "
-                            "single rules in fresh interpreters under 8+ PYTHONHASHSEED values with perturbed heap layout")
+                            "single rules in fresh interpreters under 8+ PYTHONHASHSEED values with perturbed heap layout; (e) every edit set of Editor.tla "
+                            "with two or more edits handed to processing.alter_code in three orders (list, reversed list, shuffled sets)")
     rep.assumptions += ["the controlled pool serialises file operations; CPU work between them cannot influence results (no shared memory between workers)",
                         "set iteration over AST nodes depends on addresses: perturbed by seeded pre-allocation, not enumerated"]
     return rep.finish()
